@@ -65,6 +65,7 @@ type cliItem struct {
 
 type cliRT struct {
 	fail  bool
+	echo  bool // script only (wire): the server answers with a well-formed REQUEST message; the client sees no response
 	hdr   int32
 	items []cliItem
 }
@@ -148,7 +149,7 @@ func (it cliItem) String() string {
 }
 
 func (rt cliRT) String() string {
-	if rt.fail {
+	if rt.fail || rt.echo {
 		return "fail"
 	}
 	if len(rt.items) == 0 {
@@ -372,6 +373,9 @@ func cliSeenOf(req *kmip.RequestMessage) cliSeen {
 	return s
 }
 
+// cliEchoRequest: returned by a handler to make the endpoint answer with the request message itself.
+var cliEchoRequest = &kmip.ResponseMessage{}
+
 // cliEndpoint is the server side of the pipes.
 type cliEndpoint struct {
 	mu     sync.Mutex
@@ -411,6 +415,13 @@ func (e *cliEndpoint) serve(c net.Conn) {
 		}
 		if resp == nil {
 			return
+		}
+		if resp == cliEchoRequest {
+			// a well-formed message, but not a response: the request itself is sent back
+			if err := st.Send(req); err != nil {
+				return
+			}
+			continue
 		}
 		err, p := guard("send", func() error { return st.Send(resp) })
 		if p != "" {
@@ -1279,6 +1290,9 @@ func respAPIs() []*respAPI {
 		{name: "batch0", kind: "batch", reqOps: nil, call: func(cl *kmipclient.Client, ctx context.Context) respOutcome {
 			return respBatch(cl.Batch(ctx))
 		}},
+		{name: "batch6", kind: "batch", reqOps: []uint32{cliOpActivate, cliOpDestroy, cliOpGet, cliOpLocate, cliOpActivate, cliOpDestroy}, call: func(cl *kmipclient.Client, ctx context.Context) respOutcome {
+			return respBatch(cl.Batch(ctx, act(), des(), get(), &payloads.LocateRequestPayload{}, act(), des()))
+		}},
 		{name: "batch3-opt", kind: "batch", reqOps: []uint32{cliOpActivate, cliOpDestroy, cliOpGet}, call: func(cl *kmipclient.Client, ctx context.Context) respOutcome {
 			return respBatch(cl.BatchOpt(ctx, []kmip.OperationPayload{act(), des(), get()}, kmipclient.OnBatchErr(kmip.BatchErrorContinuationOptionStop)))
 		}},
@@ -1287,21 +1301,27 @@ func respAPIs() []*respAPI {
 
 // respEnv holds the reusable clients (a Dial costs two goroutines on each side).
 type respEnv struct {
-	ctx     *Ctx
-	wireEp  *cliEndpoint
-	wireObs *cliObs
-	wireCl  *kmipclient.Client
-	injEp   *cliEndpoint
-	injObs  *cliObs
-	injCl   *kmipclient.Client
-	dials   int
+	ctx      *Ctx
+	wireEp   *cliEndpoint
+	wireObs  *cliObs
+	wireCl   *kmipclient.Client
+	injEp    *cliEndpoint
+	injObs   *cliObs
+	injCl    *kmipclient.Client
+	dials    int
+	builders []*respAPI
+	version  cliVer // the version the clients enforce (zero value: 1.4)
 }
 
 func (e *respEnv) client(inject bool) (*kmipclient.Client, *cliObs, *cliEndpoint) {
 	mk := func() (*kmipclient.Client, *cliObs, *cliEndpoint) {
 		ep := &cliEndpoint{}
 		obs := &cliObs{}
-		cl, err := kmipclient.Dial("pipe", kmipclient.WithDialerUnsafe(ep.dialer), kmipclient.WithMiddlewares(obs.mw), kmipclient.EnforceVersion(kmip.V1_4))
+		v := kmip.V1_4
+		if e.version != (cliVer{}) {
+			v = e.version
+		}
+		cl, err := kmipclient.Dial("pipe", kmipclient.WithDialerUnsafe(ep.dialer), kmipclient.WithMiddlewares(obs.mw), kmipclient.EnforceVersion(v))
 		if err != nil {
 			e.ctx.Res.Fail("resp: cannot create a client: " + err.Error())
 			return nil, nil, nil
@@ -1336,6 +1356,13 @@ func (e *respEnv) close() {
 		e.injEp.shutdown(e.ctx)
 		e.injCl = nil
 	}
+}
+
+// setVersion: the following cases run with clients enforcing v.
+func (e *respEnv) setVersion(v cliVer) {
+	e.close()
+	e.version = v
+	e.builders = nil
 }
 
 // wireShaped: a response a server can put on the wire (payload type chosen by the item's operation).
@@ -1376,6 +1403,9 @@ func respCase(env *respEnv, api *respAPI, script cliRT, inject bool) {
 		})
 	} else {
 		ep.setHandler(func(req *kmip.RequestMessage) *kmip.ResponseMessage {
+			if script.echo {
+				return cliEchoRequest
+			}
 			if script.fail {
 				return nil
 			}
@@ -1383,12 +1413,39 @@ func respCase(env *respEnv, api *respAPI, script cliRT, inject bool) {
 		})
 	}
 	ctx.current = "resp.interpret " + api.kind + " " + cliOpsStr(api.reqOps) + " " + script.String() + " (" + mode + ")"
-	cctx, cancel := context.WithTimeout(context.Background(), 5*time.Second)
+	timeout := 5 * time.Second
+	if script.echo {
+		// the read loop ignores a request message: the call can only return through its context
+		timeout = 300 * time.Millisecond
+	}
+	cctx, cancel := context.WithTimeout(context.Background(), timeout)
 	out, pn := guard(api.name, func() respOutcome { return api.call(cl, cctx) })
 	cancel()
 	events := obs.take()
+	var sent []cliSeen
 	if !inject {
-		ep.takeSeen()
+		sent = ep.takeSeen()
+		if script.echo {
+			ctx.Res.Count("resp.server-answers-with-a-request-message")
+			if pn == "" && out.err == nil {
+				cliViolate(ctx, "C12", "success-needs-response", api.kind+":success-without-response", "the call succeeded although the server only sent back a request message", ctx.current)
+			}
+		}
+	} else {
+		for _, ev := range events {
+			sent = append(sent, ev.seen)
+		}
+	}
+	// C13: every request carries the client's version; its header count is the number of its items, which
+	// are the requested operations
+	for _, sn := range sent {
+		if sn.version != cl.Version() {
+			cliViolate(ctx, "C13", "request-header", "resp:request-header-version-differs", fmt.Sprintf("%s: the request carries %s, the client's version is %s", api.name, cliVerStr(sn.version), cliVerStr(cl.Version())), ctx.current)
+		}
+		if int(sn.count) != len(sn.ops) || cliOpsStr(sn.ops) != cliOpsStr(api.reqOps) {
+			cliViolate(ctx, "C13", "request-header", "resp:request-header-malformed", fmt.Sprintf("%s: the request has header count %d and operations %s, requested were %s", api.name, sn.count, cliOpsStr(sn.ops), cliOpsStr(api.reqOps)), ctx.current)
+		}
+		ctx.Res.Count("resp.request-header-checked")
 	}
 	seen := script
 	received := inject && !script.fail
@@ -1726,6 +1783,15 @@ func respReplay(ctx *Ctx, env *respEnv, l string) {
 				return
 			}
 		}
+		// a typed Exec of another operation: every fluent builder requesting it
+		if env.builders == nil {
+			env.builders = respBuilderAPIs(env)
+		}
+		for _, api := range env.builders {
+			if api.kind == f[1] && cliOpsStr(api.reqOps) == f[2] {
+				respCase(env, api, rt, true)
+			}
+		}
 	case len(f) == 4 && f[0] == "resp.signer":
 		sgReplay(env, f)
 	case len(f) == 3 && f[0] == "resp.enumstr", len(f) == 2 && f[0] == "resp.registered":
@@ -1769,45 +1835,8 @@ func respTables(ctx *Ctx) {
 	if len(cliRespTypes) != len(cliRegResp) {
 		cliViolate(ctx, "C12", "payload-type", "registry:shared-response-type", "two operations are registered with the same response type", "#registry")
 	}
-	// every builder returning an Executor[Req, Resp] uses the response type registered for Req's operation
-	ep := &cliEndpoint{}
-	cl, err := kmipclient.Dial("pipe", kmipclient.WithDialerUnsafe(ep.dialer), kmipclient.EnforceVersion(kmip.V1_4))
-	if err != nil {
-		ctx.Res.Fail("resp: cannot create a client: " + err.Error())
-		return
-	}
-	cv := reflect.ValueOf(cl)
-	checked := 0
-	for i := 0; i < cv.NumMethod(); i++ {
-		mt := cv.Type().Method(i)
-		if mt.Type.NumOut() != 1 {
-			continue
-		}
-		rtp := mt.Type.Out(0)
-		rp, ok1 := rtp.MethodByName("RequestPayload")
-		ec, ok2 := rtp.MethodByName("ExecContext")
-		if !ok1 || !ok2 || rp.Type.NumOut() != 1 || ec.Type.NumOut() != 2 {
-			continue
-		}
-		reqT := rp.Type.Out(0)
-		if reqT.Kind() != reflect.Pointer {
-			continue
-		}
-		op, ok := cliReqTypes[reqT.Elem()]
-		if !ok {
-			continue
-		}
-		checked++
-		if got, want := ec.Type.Out(0), reflect.PointerTo(cliRegResp[op]); got != want {
-			cliViolate(ctx, "C12", "payload-type", "exec:resp-type-not-registered-type", fmt.Sprintf("Client.%s: ExecContext returns %v, the response type registered for operation 0x%X is %v", mt.Name, got, op, want), "#builder "+mt.Name)
-		}
-	}
-	_ = cl.Close()
-	ep.shutdown(ctx)
-	ctx.Add("#builders-checked", strconv.Itoa(checked), false, "C12")
-	if checked < 15 {
-		ctx.Res.Fail(fmt.Sprintf("resp: only %d fluent builders could be checked by reflection", checked))
-	}
+	// (that every fluent builder returns the response type registered for the operation it requests is
+	// checked by EXECUTING each of them: client_builders.go)
 }
 
 func runResp(ctx *Ctx) {
@@ -1832,28 +1861,63 @@ func runResp(ctx *Ctx) {
 	r := ctx.R
 	respTables(ctx)
 	hdrs := []int32{0, 1, 2, -1}
-	for _, api := range respAPIs() {
-		for _, inject := range []bool{true, false} {
+	conforming := func(api *respAPI) []cliItem {
+		var its []cliItem
+		for _, o := range api.reqOps {
+			pl := cliPl{kind: 'r', op: o}
+			if _, ok := cliRegResp[o]; !ok {
+				pl.kind = 'u'
+			}
+			its = append(its, cliItem{op: o, pl: pl})
+		}
+		return its
+	}
+	runAPI := func(api *respAPI, inject bool, light bool) {
+		scale := func(n int) int {
+			if light {
+				return n/10 + 1
+			}
+			return n
+		}
+		{
 			// no response / no item
 			respCase(env, api, cliRT{fail: true}, inject)
+			if !inject {
+				respCase(env, api, cliRT{echo: true}, inject)
+			}
 			for _, h := range hdrs {
 				respCase(env, api, cliRT{hdr: h}, inject)
 			}
 			n := len(api.reqOps)
+			// header counts that only a narrowing or unsigned comparison would take for the right one, on
+			// otherwise conforming items
+			for _, d := range []int64{256, -256, 65536, -65536, 1 << 31, -(1 << 31), 1 << 32} {
+				if h := int64(n) + d; h >= -(1<<31) && h < 1<<31 {
+					respCase(env, api, cliRT{hdr: int32(h), items: conforming(api)}, inject)
+				}
+			}
+			for _, h := range []int32{1<<31 - 1, -(1 << 31), 3, 5, 255, 257} {
+				if int(h) != n {
+					respCase(env, api, cliRT{hdr: h, items: conforming(api)}, inject)
+				}
+			}
 			firstOp := cliOpActivate
 			if n > 0 {
 				firstOp = api.reqOps[0]
 			}
 			first := respItems(firstOp, inject, false, api.reqOps...)
 			// one item: exhaustive
-			if n <= 1 || ctx.Thor {
+			if n <= 1 || (ctx.Thor && !light) {
 				for _, h := range hdrs {
 					for _, it := range first {
+						if light && h != 1 {
+							continue
+						}
 						respCase(env, api, cliRT{hdr: h, items: []cliItem{it}}, inject)
 					}
 				}
 			} else {
-				for k := 0; k < 150; k++ {
+				for k := 0; k < scale(150); k++ {
 					respCase(env, api, cliRT{hdr: rng.Pick(r, hdrs), items: []cliItem{rng.Pick(r, first)}}, inject)
 				}
 			}
@@ -1864,7 +1928,7 @@ func runResp(ctx *Ctx) {
 			}
 			second := respItems(secondOp, inject, false, api.reqOps...)
 			switch {
-			case n == 2 && ctx.Thor && inject:
+			case n == 2 && ctx.Thor && inject && !light:
 				for _, h := range hdrs {
 					for _, a := range first {
 						for _, b := range second {
@@ -1877,7 +1941,7 @@ func runResp(ctx *Ctx) {
 				if n == 2 {
 					samples = ctx.N(3000, 40000)
 				}
-				for k := 0; k < samples; k++ {
+				for k := 0; k < scale(samples); k++ {
 					h := rng.Pick(r, hdrs)
 					if n == 2 && r.Chance(3, 4) {
 						h = 2
@@ -1887,7 +1951,7 @@ func runResp(ctx *Ctx) {
 			}
 			if n == 3 {
 				third := respItems(api.reqOps[2], inject, false, api.reqOps...)
-				for k := 0; k < ctx.N(1500, 20000); k++ {
+				for k := 0; k < scale(ctx.N(1500, 20000)); k++ {
 					h := int32(3)
 					if r.Chance(1, 5) {
 						h = rng.Pick(r, hdrs)
@@ -1895,10 +1959,68 @@ func runResp(ctx *Ctx) {
 					respCase(env, api, cliRT{hdr: h, items: []cliItem{rng.Pick(r, first), rng.Pick(r, second), rng.Pick(r, third)}}, inject)
 				}
 			}
+			// longer batches: conforming everywhere except at one or two random positions (any position,
+			// the last ones included)
+			if n >= 4 {
+				for k := 0; k < scale(ctx.N(2000, 30000)); k++ {
+					its := conforming(api)
+					for m := 1 + r.Intn(2); m > 0; m-- {
+						i := r.Intn(n)
+						if k%n < n && m == 1 && k < 4*n {
+							i = k % n // every position at least four times
+						}
+						its[i] = rng.Pick(r, respItems(api.reqOps[i], inject, false, api.reqOps...))
+					}
+					h := int32(n)
+					if r.Chance(1, 8) {
+						h = rng.Pick(r, append([]int32{int32(n) - 1, int32(n) + 1}, hdrs...))
+					}
+					switch r.Intn(12) {
+					case 0:
+						its = its[:n-1] // an item short
+					case 1:
+						its = append(its, rng.Pick(r, first)) // an item too many
+					}
+					respCase(env, api, cliRT{hdr: h, items: its}, inject)
+					ctx.Res.Count(fmt.Sprintf("resp.long-batch.items=%d", len(its)))
+				}
+			}
+		}
+	}
+	for _, api := range respAPIs() {
+		for _, inject := range []bool{true, false} {
+			runAPI(api, inject, false)
+		}
+	}
+	// every fluent builder (client_builders.go), in process: one-item shapes exhaustively under a header count
+	// of 1, the other header counts and two-item responses sampled
+	for _, api := range respBuilderAPIs(env) {
+		respCase(env, api, cliRT{fail: true}, true)
+		for _, h := range hdrs {
+			respCase(env, api, cliRT{hdr: h}, true)
+		}
+		items := respItems(api.reqOps[0], true, false)
+		for _, it := range items {
+			respCase(env, api, cliRT{hdr: 1, items: []cliItem{it}}, true)
+		}
+		for k := 0; k < ctx.N(30, 600); k++ {
+			respCase(env, api, cliRT{hdr: rng.Pick(r, hdrs), items: []cliItem{rng.Pick(r, items)}}, true)
+			respCase(env, api, cliRT{hdr: rng.Pick(r, hdrs), items: []cliItem{rng.Pick(r, items), rng.Pick(r, items)}}, true)
 		}
 	}
 	// the composite helper Signer / Sign (client_signer.go)
 	runSignerCases(env)
+	// the same calls by clients speaking the other protocol versions (the responses are then decoded under
+	// that version's rules): a lighter pass
+	for _, v := range []cliVer{kmip.V1_0, kmip.V1_2} {
+		env.setVersion(v)
+		for _, api := range respAPIs() {
+			for _, inject := range []bool{true, false} {
+				runAPI(api, inject, true)
+			}
+		}
+		ctx.Res.Count("resp.client-version=" + cliVerStr(v))
+	}
 	env.close()
 	// the discovery exchange at connect time
 	dialItems := respItems(cliOpDiscover, true, true)
